@@ -641,6 +641,12 @@ class Summaries:
             st = ctx.st
             if is_str(rty):
                 src = it.args[0] if isinstance(it, IterV) and it.kind == 'chars' else None
+                if isinstance(src, StrV) and src.known is not None and all(
+                        o[0] in ('skip', 'take') and isinstance(o[1], NumV) and o[1].sym is None for o in it.ops):
+                    sk = src.known
+                    for o in it.ops:
+                        sk = sk[o[1].k:] if o[0] == 'skip' else sk[:o[1].k]
+                    return StrV(sk, prov=('collect',))
                 if isinstance(it, IterV) and any(o[0] in ('map', 'filter') for o in it.ops):
                     s2 = st.fork()
                     iter_elem(ctx, s2, it)
@@ -1005,6 +1011,7 @@ class Summaries:
                 nv = StrV(None, oid=next(_c), prov=('push', cur.key() if isinstance(cur, V) else None, ch.key() if isinstance(ch, V) else None))
                 ctx.st.vn[('nonempty', nv.oid)] = True
                 ctx.st.vn[('pushdef', nv.oid)] = (cur, ch)
+            log(ctx, 'str.push', spath(r.path) if isinstance(r, RefV) else None, ch)
             if isinstance(r, RefV):
                 eng.write(ctx.st, r.path, nv)
             return UNIT
